@@ -66,16 +66,23 @@ def strings(v):
 LOOKS_SPECIAL = re.compile(r"^\s*(\(.*\)|\[.*\]|\{.*\}|/.*/i?|NOT\s*\(.*\)|.*['\"]i)\s*$", re.S)
 
 
+def printed_bare(s):
+    """values the printer writes without quotes: parenthesised expressions, NOT (...), bindings, regexes, lists"""
+    t = s.strip()
+    return bool((t.startswith("(") and t.endswith(")")) or (t.startswith("NOT ") and t[4:].strip().startswith("("))
+                or (t.startswith("[") and t.endswith("]")) or (t.startswith("{") and t.endswith("}"))
+                or (t.startswith("/") and (t.endswith("/") or t.endswith("/i"))) or t.endswith("'i") or t.endswith('"i'))
+
+
 def excluded(d, quote='"'):
-    """documented exclusions of C01/C03/C06: a string containing the output quote, or a string
-    that itself looks like an expression / regex / list / binding"""
+    """documented exclusion of C01/C03/C06: a string value (one that is written quoted) containing an
+    UNESCAPED occurrence of the output quote"""
+    pat = re.compile(r"(?<!\\)" + re.escape(quote))
     for k, s in strings(d):
-        if quote in s:
-            return "string contains the output quote"
-        if LOOKS_SPECIAL.match(s) and not s.startswith("("):
-            # bindings / regexes / lists are legitimate VALUES of expression-capable keywords; as plain
-            # strings elsewhere they are excluded.  Parenthesised expressions are handled by C10.
-            pass
+        if printed_bare(s):
+            continue
+        if pat.search(s):
+            return "string contains the unescaped output quote"
     return None
 
 
@@ -109,7 +116,8 @@ def shrink_dict(d, fails, max_steps=400):
                     continue
                 yield pre + (k,)
                 yield from paths(node[k], pre + (k,))
-        elif isinstance(node, list):
+        elif isinstance(node, list) and node and all(isinstance(x, dict) for x in node):
+            # only lists of objects are thinned; value lists (OFFSET 2 2, POINTS ...) stay whole
             for i in range(len(node)):
                 if len(node) > 1:
                     yield pre + (i,)       # the last item goes away with its key, never leaving an empty list
@@ -148,6 +156,8 @@ def roundtrip_failure(d, loads, dumps):
     """None if d survives dumps -> loads, else ('rejected'|'changed'|'dumps-raises', detail)"""
     if not d:
         return None
+    if isinstance(d, list) and len(d) == 1:
+        d = d[0]            # a one-element root list loads back as the single dictionary
     try:
         t2 = dumps(d)
     except Exception as ex:
